@@ -98,7 +98,14 @@ func evalCommand(line string) (string, string) {
 		l := unhxList(f[2])
 		// the caller's slice (with spare capacity, as after an append) is the caller's: Join leaves it alone
 		mine := append(make([]string, 0, len(l)+4), l...)
-		res := hxs(string(x.Join(mine...)))
+		kept := x.Join(mine...)
+		res := hxs(string(kept))
+		// the command that was returned stays what it is while other commands are joined
+		_ = x.Join("zzzz", "yyyyyyyy")
+		_ = command.New("wwwwwwwwwwwwwwww", "v")
+		if later := hxs(string(kept)); later != res {
+			return "history: a joined command reads " + res + " and, after other joins, " + later, q(string(x)) + ".Join(" + strings.Join(l, ",") + ")"
+		}
 		for i := range l {
 			if mine[i] != l[i] {
 				return "history: Join rewrote the segment slice it was given (" + strings.Join(mine, ",") + ")", q(string(x)) + ".Join(" + strings.Join(l, ",") + ")"
@@ -165,6 +172,16 @@ func runCommandStream(c *ctx) error {
 	}
 	for _, s := range extra {
 		parseCase(s, "parse-random")
+	}
+	// covers on commands with multi-byte characters (byte length ≠ character count): prefixes that end inside, right after, and
+	// before a character
+	mbCmds := []string{"/", "/é", "/éé", "/éé/x", "/éé/xyz", "/éé/x/y", "/é/é", "/ééé", "/ほげ", "/ほげ/ふが", "/ほげふ", "/e/x", "/éé/é", "/σ", "/ς", "/σ/a"}
+	for _, x := range mbCmds {
+		for _, y := range mbCmds {
+			c.emitG("cmd.covers "+hxs(x)+" "+hxs(y), "command.Covers",
+				func(string) bool { return strings.HasPrefix(y, x) },
+				func(g string) []string { return []string{"covers-multibyte:" + g[:1]} })
+		}
 	}
 	// covers + segments on all pairs of valid commands
 	for _, x := range valid {
